@@ -391,7 +391,8 @@ def make_arith_monitor(flags):
 # --------------------------------------------------------------------------
 DURATIONS_D = [(K_SLEEP, 0, 0), (K_USLEEP, 0, 0), (K_USLEEP, 1, 0), (K_USLEEP, 999, 0), (K_USLEEP, 1000, 0),
                (K_USLEEP, 4999, 0), (K_USLEEP, 5000, 0), (K_USLEEP, 5001, 0), (K_USLEEP, 12345, 0),
-               (K_NANOSLEEP, 0, 1), (K_NANOSLEEP, 0, 4999999), (K_NANOSLEEP, 0, 999999999), (K_FSLEEP, 0, 7500),
+               (K_NANOSLEEP, 0, 1), (K_NANOSLEEP, 0, 4999999), (K_NANOSLEEP, 0, 999999999), (K_NANOSLEEP, 0, 40000001),
+               (K_NANOSLEEP, 0, 40000002), (K_NANOSLEEP, 1, 1), (K_FSLEEP, 0, 7500),
                (K_FSLEEP, 1, 2500), (K_SLEEP, 1, 0)]
 
 
